@@ -82,8 +82,13 @@ def tier_p(prop, cfg, tier, jobs):
     from pyvc.solve import load_sidecars, run_all
 
     mods = cfg["sidecars"]
-    if not mods:
+    if not mods and not cfg.get("frames"):
         return None
+    if not mods:
+        out = dict(functions=[], lemmas=[], trusted=[], axioms=[], wall_s=0.0, obligations=0, discharged=0, covers=0, covers_reachable=0, solver_s=0.0,
+                   backends={}, sat=[], unknown=[], drift=[], crash=[], per_function={}, samples=[])
+        frames_into(out)
+        return out
     load_sidecars(mods)
     keys = [k for k, c in api.CONTRACTS.items() if prop in c.props and not c.trusted]
     lemmas = [k for k, l in api.LEMMAS.items() if prop in l.props]
@@ -131,7 +136,34 @@ def tier_p(prop, cfg, tier, jobs):
                 if pf["status"] == "proved":
                     pf["status"] = "undecided"
     out["solver_s"] = round(out["solver_s"], 2)
+    if cfg.get("frames"):
+        frames_into(out)
     return out
+
+
+def frames_into(out):
+    """tier P': ownership / frame obligations, one per heap write site of the library"""
+    from pyvc import frames
+
+    t0 = time.time()
+    sites, problems = frames.analyse_repo(os.environ.get("PYVC_REPO", "/repo"))
+    for p in problems:
+        out["drift"].append(("frames", p))
+    for s in sites:
+        out["obligations"] += 1
+        pf = out["per_function"].setdefault("frames:" + s.func, dict(obligations=0, discharged=0, status="proved", reachable_returns=1))
+        pf["obligations"] += 1
+        out["backends"]["frames (AST ownership analysis)"] = out["backends"].get("frames (AST ownership analysis)", 0) + 1
+        if s.ok:
+            out["discharged"] += 1
+            pf["discharged"] += 1
+            if len([x for x in out["samples"] if "frame" in str(x)]) < 3:
+                out["samples"].append(dict(obligation=s.name, result="discharged", reason=s.reason))
+        else:
+            pf["status"] = "refuted"
+            out["sat"].append(("frames:" + s.func, "lemma", dict(name=s.name, note=s.reason, backend="frames (AST ownership analysis)", s=0.0, model=None, result="sat")))
+    out["frames_sites"] = len(sites)
+    out["wall_s"] = round(out["wall_s"] + time.time() - t0, 2)
 
 
 def native_replay(path):
